@@ -23,6 +23,8 @@ pub struct Ledger {
     pub double_drops: Vec<(u8, u64)>,
     /// Armed fault: panic at the k-th (0-based) callback of this kind.
     pub fault: Option<(Kind, u64)>,
+    /// Only callbacks of components numbered at least this count towards the fault.
+    pub fault_min_comp: u8,
     pub fault_fired: bool,
 }
 
@@ -44,7 +46,7 @@ pub fn record(kind: Kind, comp: u8, tok: u64) -> bool {
     with(|l| {
         let mut fire = false;
         if let Some((k, n)) = l.fault {
-            if k == kind {
+            if k == kind && comp >= l.fault_min_comp {
                 if n == 0 {
                     l.fault = None;
                     l.fault_fired = true;
@@ -88,8 +90,14 @@ pub fn take_events() -> Vec<(Kind, u8, u64)> {
 }
 
 pub fn arm(kind: Kind, k: u64) {
+    arm_from(kind, k, 0)
+}
+
+/// Only callbacks of components numbered `min_comp` or higher count (resources are numbered from 100).
+pub fn arm_from(kind: Kind, k: u64, min_comp: u8) {
     with(|l| {
         l.fault = Some((kind, k));
+        l.fault_min_comp = min_comp;
         l.fault_fired = false;
     })
 }
